@@ -369,6 +369,7 @@ func TestPropLogin(t *testing.T) {
 		}
 		containers := func() []string { return append([]string{"inst"}, placedGroups...) }
 		flags := map[string]bool{}
+		lastToken := map[string]string{}
 		steps := rapid.IntRange(2, 14).Draw(t, "steps")
 		var hist []string
 		for s := 0; s < steps; s++ {
@@ -436,6 +437,15 @@ func TestPropLogin(t *testing.T) {
 			}
 			// oracle after every step
 			for _, u := range users {
+				// a token issued earlier stays valid when the user is moved or
+				// deleted afterwards; its listing follows the user's places as they
+				// are now (none: nothing is listed)
+				if tok := lastToken[u.id]; tok != "" {
+					if len(g.Parents(u.id, false)) == 0 {
+						flags["listingAfterUserDeleted"] = true
+					}
+					checkListing(t, e, g, u.id, tok, hist)
+				}
 				reach := g.LiveFromRoot(u.id)
 				for _, try := range []struct {
 					email, pass string
@@ -471,6 +481,7 @@ func TestPropLogin(t *testing.T) {
 							t.Fatalf("POST /v1/auth: no token in %q", rec.Body.String())
 						}
 						checkListing(t, e, g, u.id, a.Token, hist)
+						lastToken[u.id] = a.Token
 					}
 				}
 			}
